@@ -314,3 +314,13 @@ def run(facts, rep, ctx):
     from . import round4
     round4.tb5b(facts, rep)
 
+
+
+_run_before_round5 = run
+
+
+def run(facts, rep, ctx):
+    """rules added after the fourth seeding round (rules/round5.py)"""
+    _run_before_round5(facts, rep, ctx)
+    from . import round5
+    round5.zr1(facts, rep)
